@@ -739,5 +739,12 @@ PROPS["C04"]["rules"] = PROPS["C04"]["rules"] + [rules_cache.rule_header_limit_s
 PROPS["C04"]["explanation"] += " (HDRLIMIT) no routine that reads a chunk special header bounds its length by a limit HMCcreate does not enforce."
 PROPS["C20"]["rules"] = PROPS["C20"]["rules"] + [rules_cache.rule_header_limit_shared]
 
+PROPS["C04"]["rules"] = PROPS["C04"]["rules"] + [rules_ref.rule_external_io_positioned, rules_limits.rule_min_form_consistent]
+PROPS["C04"]["explanation"] += " (EXTSEEK) every transfer on an external element's stream follows a seek on that stream. (MINFORM) a piece size taken as the smaller of two quantities tests the quantity it assigns."
+PROPS["C01"]["rules"] = PROPS["C01"]["rules"] + [rules_ref.rule_external_io_positioned]
+PROPS["C08"]["rules"] = PROPS["C08"]["rules"] + [rules_handles.rule_one_count_per_id, (lambda ctx: rules_ann.rule_rewrite_reuses_element(ctx, files=("hdf/src/vgp.c",), floor=1))]
+PROPS["C08"]["explanation"] += " (IDCOUNT) every id Vattach/VSattach registers comes with a raised attach count. (REUSEOLD) Vdetach releases the old Vgroup element depending on flag tests only, never on lengths."
+PROPS["C13"]["rules"] = PROPS["C13"]["rules"] + [rules_handles.rule_one_count_per_id]
+
 NOT_APPLICABLE = {}
 
